@@ -4,13 +4,13 @@ CHECKS = {
   text=('Theorems over ALL schedules, any number of handlers, messages and Close callers about a hand-written thread-level transition system of the Router close protocol '
         '(Router.Close, waitForHandlers, Run\'s tail, the handler loops, handleClose, handleMessage, the subscriber decorator\'s pump; timeouts fire at any moment): a Close call that returns nil '
         'implies no handler invocation in progress, no message left in the pipeline, all loops ended - and it stays so (invariant proof: wait-group counters = number of goroutines they stand for, lock ownership, '
-        'what a finished waiter knows); Run returns only after the close completed; concurrent/repeated Close is exclusive and never panics; with any number of RunHandlers calls competing for handlersLock some lock user can always move (no lock-order deadlock between closedLock and handlersLock; refuted for the variant where RunHandlers takes closedLock under handlersLock) and a Close call takes at most seven steps; '
+        'what a finished waiter knows); Run returns only after the close completed; concurrent/repeated Close is exclusive and never panics; with any number of RunHandlers calls competing for handlersLock some lock user can always move (no lock-order deadlock between closedLock and handlersLock; refuted for the variant where RunHandlers takes closedLock under handlersLock) and a Close call takes at most seven steps; TERMINATION without a fairness assumption: a measure over all threads that every system label strictly decreases, so every run of system labels is finite and a maximal one ends with every Close call returned or legitimately waiting (then the timeout returns the error in three steps of that call alone); '
         'handleClose never finishes without closing the subscriber; the general stuck-state theorem (a waiting Close with no system step enabled implies a running handler, a subscriber blocked in its own Close(), or the early context cancel); the executable API acceptor is PROVED to accept every trace of the repaired model (simulation relation); the pinned behaviours D5 (concurrent waits), D6 (ctx.Done wins the select), D12 (nil after a timed-out Close) and D16 (a handler added but never started blocks Close until the timeout) are refuted by witness schedules. '
         'Tied to the code on every run: a real Router with scripted subscribers (honouring / ignoring the context), publishers and handlers under 98 forced schedules (a message parked at each of 8 points of its path x '
         'Close / outwaited Close / timeout + second Close / 3 concurrent Closes / context cancel / both) and random schedules; the stamped hook log is replayed label by label on the model and an API-level acceptor judges the history.'),
   note=('Trusted: Coq kernel + vm_compute; Go runtime semantics of Mutex/WaitGroup/channels/select/context/time.After as modelled; subscriber contract (Close() returns, the channel closes after Close() or context end); '
         'hook stamp discipline + Python mapper; the API acceptor (Router/CloseMonitor.v) judges implementation histories and is proved to accept all model traces (C06_acceptor_accepts_model). '
-        'Partial: "every Close returns" = never stuck + bounded own steps (scheduler fairness assumed). Known finding: after the Run context was cancelled before Close, subscribers are not closed. '
+        'Known finding: after the Run context was cancelled before Close, subscribers are not closed. '
         'AddHandler/RunHandlers/Stop concurrent with Close are outside the model (C10).'),
   technique='Coq proof (invariants over a thread-level LTS, refutation witnesses by vm_compute) + schedule-replay correspondence check with forced interleavings + executable API acceptor',
   design_ref='DESIGN.md section 7 C06/C10'),
